@@ -46,4 +46,3 @@ type Result struct {
 	Reproduced  bool           `json:"reproduced"`
 	ShrinkRuns  int            `json:"shrink_runs"`
 }
-
